@@ -91,6 +91,8 @@ def resolve(repo, spec):
         m = importlib.import_module(mod)
         o = m
         for part in qual.split("."):
+            if inspect.isclass(o) and part.startswith("__") and not part.endswith("__"):
+                part = "_%s%s" % (o.__name__.lstrip("_"), part)        # private name mangling
             o = inspect.getattr_static(o, part) if inspect.isclass(o) else getattr(o, part)
         return unwrap(o)
     try:
